@@ -23,7 +23,20 @@ def _rand_wfn_spec(rng):
     else:
         nn, sz = 0, rng.randint(-norb, norb)
     keys = fqeio.sector_keys(norb, mode, nn, sz)
-    return {'norb': norb, 'mode': mode, 'n': nn, 'sz': sz, 'vec': fqeio.random_state(rng, norb, keys, density=0.8)}
+    vec = fqeio.random_state(rng, norb, keys, density=0.8)
+    flavour = rng.choice(['int', 'int', 'tiny_imag', 'tiny_all', 'real', 'mixed_scale'])
+    # floating-point coefficient patterns a lossy or "compacting" serialisation would damage: imaginary parts at the
+    # 1e-9 .. 1e-12 level next to real parts of order one, states of tiny overall scale, exactly real sectors,
+    # magnitudes spread over 20 orders, a negative zero
+    if flavour == 'tiny_imag':
+        vec = [[a, b, float(re) or 1.0, im * 1.25e-9 + 3e-12] for a, b, re, im in vec]
+    elif flavour == 'tiny_all':
+        vec = [[a, b, re * 2.5e-11, im * 1.5e-11] for a, b, re, im in vec]
+    elif flavour == 'real':
+        vec = [[a, b, float(re) or 2.0, -0.0] for a, b, re, im in vec]
+    elif flavour == 'mixed_scale':
+        vec = [[a, b, re * 10.0 ** rng.randint(-12, 8), im * 10.0 ** rng.randint(-14, 3)] for a, b, re, im in vec]
+    return {'norb': norb, 'mode': mode, 'n': nn, 'sz': sz, 'vec': vec}
 
 
 def gen_cases(rng, tier):
